@@ -33,6 +33,7 @@ let string_of_bytes (l : n list) : string =
 let () =
   let family = if Array.length Sys.argv > 1 then Sys.argv.(1) else "codec" in
   let run = match family with
+    | "session" -> run_session_line
     | _ -> run_codec in
   try
     while true do
